@@ -144,6 +144,9 @@ def one_execution(w, n_chunks, seed, strategy, forced, strict):
                 it.close()
             except Exception as e:
                 res["close_exc"] = repr(e)[:100]
+            # whatever the stages still do after the consumer has gone happens before their threads end
+            pr.R.sim.park_until_quiescent()
+            res["Q_after_close"] = sum(1 for rec in pr.log if rec[0] == "sa")
         res["alive"] = [t.name for t in pr.R.sim.live_threads()]
         return True
 
@@ -187,6 +190,18 @@ def execute(w, seed, strategy="random", forced=None, strict=False, forced2=None)
                 # schedules diverged before quiescence although nothing distinguishes the runs
                 vio = Violation("DIVERGED", "N and 2N executions differ before the source is exhausted",
                                 f"Q(N)={q1} Q(2N)={q2}")
+    if vio is None and not inconclusive and w["cfg"]["allow_lazy"] and w["cfg"]["max_workers"] == 1:
+        # Lazy mode: demand is the only thing that advances a source, and demand reaches it through every stage
+        # (mailbox fetch gates, the gate of divide_outputs).  The graphs of this check contain no plugin that needs
+        # input beyond the chunk it is asked for, so when the consumer has taken k chunks and waits for nothing,
+        # exactly k source chunks have been asked for by a reader that was (transitively) waiting.
+        for rr, tag in ((r1, "N"), (r2, "2N")):
+            if rr.get("Q", 0) > w["k"]:
+                vio = Violation("LAZY_OVERRUN", "lazy mode: source chunks were computed that no waiting reader "
+                                                "had asked for (production ran ahead of the consumer's demand)",
+                                f"{tag}: Q={rr['Q']} after the consumer took k={w['k']} chunks, "
+                                f"cap={w['cfg']['max_messages']}, shape={w['shape']}")
+                break
     if vio is None and not inconclusive:
         for rr, tag in ((r1, "N"), (r2, "2N")):
             bad = [g for g in rr.get("gate", []) if not g[1]]
@@ -203,6 +218,16 @@ def execute(w, seed, strategy="random", forced=None, strict=False, forced2=None)
             vio = Violation("THREADS_ALIVE", "threads alive after draining", r1["alive"])
     if vio is None and not inconclusive and w["after"] == "close" and r1.get("alive"):
         vio = Violation("THREADS_ALIVE", "threads alive after closing the paused iterator", r1["alive"])
+    if vio is None and not inconclusive and w["after"] == "close":
+        # the pipeline was at rest when the iterator was closed: closing it stops production, it does not let
+        # the source run through the rest of the run with its output thrown away (one chunk of slack per stage)
+        for rr, tag, n in ((r1, "N", N), (r2, "2N", 2 * N)):
+            extra = rr.get("Q_after_close", rr.get("Q", 0)) - rr.get("Q", 0)
+            if extra > len(w["nodes"]) + 2:
+                vio = Violation("RUNS_ON_AFTER_CLOSE", "the source kept computing after the consumer closed the "
+                                                       "iterator (its output is dropped)",
+                                f"{tag}: {extra} further source chunks after close, {rr['Q']} before, run of {n}")
+                break
     r = base_result(pr1, w, vio, inconclusive, strategy=strategy,
                     extra_probes={"max_Q": r1.get("Q", 0), "lazy_runs": int(w["cfg"]["allow_lazy"]),
                                   "gate_checks": len(r1.get("gate", [])) + len(r2.get("gate", [])),
